@@ -79,6 +79,8 @@ def iter_source(it):
                 if inner[0] == "agg":
                     e = inner
                     continue
+                if inner[0] == "const":
+                    return None      # a constant array / slice: a sequence in source order
                 # into_iter on a container value / reference
                 tb = table_of(a)
                 if tb is not None:
@@ -269,6 +271,9 @@ class ClosureCache:
     def run(self, closure_expr, params=None):
         """Interpret the body of a closure with its environment bound to the aggregate built at
         the call site.  Returns a dict: returns=[expr], effects=[Ev], stores=[Ev]."""
+        # a closure / fn item coerced to a fn pointer (`let keep: fn(&K) -> bool = |k| ..;`) is that callable
+        while closure_expr[0] == "cast" and str(closure_expr[1]).startswith(("Coerce:ClosureFnPointer", "Coerce:ReifyFnPointer")):
+            closure_expr = closure_expr[2]
         path = closure_path(closure_expr)
         fn_item = False
         if path is None:
@@ -334,6 +339,55 @@ class Recorder:
         elif ev.kind not in self.PURE:
             self.effects.append(ev)
         return None
+
+
+ACC_BIN = {"Add": "plus", "AddUnchecked": "plus", "AddWithOverflow": "plus", "Sub": "minus", "SubUnchecked": "minus", "SubWithOverflow": "minus",
+           "BitOr": "or", "BitAnd": "and", "BitXor": "xor", "Mul": "mul", "MulUnchecked": "mul", "MulWithOverflow": "mul"}
+ACC_CALL = {"wrapping_add": "plus", "saturating_add": "plus!", "wrapping_sub": "minus", "saturating_sub": "minus!", "max": "max", "min": "min", "wrapping_mul": "mul", "saturating_mul": "mul!"}
+
+
+def acc_families(e, acc):
+    """Operations between the root of `e` and the (single) occurrence of the accumulator `acc` in it: a set of families
+    ('plus', 'minus!', 'other:..'), frozenset() when e is acc itself, None when acc does not occur, 'multi' when it
+    occurs more than once."""
+    if e == acc:
+        return frozenset()
+    if not isinstance(e, tuple) or not mentions(e, lambda x: x == acc):
+        return None
+    if e[0] == "bin":
+        ra, rb = acc_families(e[2], acc), acc_families(e[3], acc)
+        if ra is not None and rb is not None:
+            return "multi"
+        r = ra if ra is not None else rb
+        if r == "multi":
+            return r
+        fam = ACC_BIN.get(e[1], "other:%s" % e[1])
+        if fam == "minus" and ra is None:
+            fam = "other:reversed-subtraction"
+        return r | {fam}
+    if e[0] == "field" and e[1][0] == "bin" and e[1][1].endswith("WithOverflow") and e[2] in ("0", 0):
+        return acc_families(e[1], acc)
+    if e[0] == "call" and e[2].startswith(("core::num::", "core::cmp::")) and e[3]:
+        rs = [acc_families(a, acc) for a in e[3]]
+        hit = [r for r in rs if r is not None]
+        if len(hit) > 1 or hit[0] == "multi":
+            return "multi"
+        m = e[2].rsplit("::", 1)[-1]
+        fam = ACC_CALL.get(m, "other:%s" % m)
+        if fam.startswith("minus") and rs[0] is None:
+            fam = "other:reversed-subtraction"
+        return hit[0] | {fam}
+    if e[0] == "cast":
+        return acc_families(e[2], acc)
+    return frozenset({"other:%s" % e[0]})
+
+
+def families_commute(fams):
+    plain = {f.rstrip("!") for f in fams}
+    clamped = any(f.endswith("!") for f in fams)
+    if any(f.startswith("other:") for f in fams):
+        return False
+    return len(plain) <= 1 or (plain <= {"plus", "minus"} and not clamped)
 
 
 def strong_vs_value(e, elem):
@@ -413,7 +467,22 @@ class Verdict:
         src = iter_source(c[3][0])
         if src is None or src[0] != "map":
             return None
-        cl = self.closures.run(c[3][1], params={2: ("param", 2)})
+        # what the predicate is handed: the map's entry, as the adaptors in front of `any` reshape it
+        # (`iter().map(Counts::of).any(Counts::externally_owned)`)
+        seen = ("param", 2)
+        for name, cargs in reversed(src[-1]):
+            if name in ("copied", "cloned"):
+                seen = mk_deref(seen)
+            elif name == "map" and cargs:
+                mc = self.closures.run(cargs[0], params={2: seen})
+                if mc is None or mc["effects"] or len(mc["returns"]) != 1:
+                    return None
+                seen = mc["returns"][0]
+            elif name in PASS_THROUGH:
+                continue
+            else:
+                return None
+        cl = self.closures.run(c[3][1], params={2: seen})
         if cl is None:
             return None
         M = src[1]
@@ -506,8 +575,56 @@ class Verdict:
                 return st2
         return None
 
+    def _fold_verdict(self, eng, st, op, x, y, truth, b):
+        """`map.iter().fold(0, |n, (m, &owned)| n + m.strong().saturating_sub(owned)) > 0`: the number of strong references
+        the group does not hold itself; the group is orphaned iff it is zero."""
+        if not (x[0] == "call" and x[2] == "core::iter::Iterator::fold" and len(x[3]) == 3 and is_const(y, 0)):
+            return None
+        src = iter_source(x[3][0])
+        if src is None or src[0] != "map" or src[-1]:
+            return None
+        M = src[1]
+        acc, elem = ("param", 2), ("param", 3)
+        cl = self.closures.run(x[3][2], params={2: acc, 3: elem})
+        if cl is None:
+            return None
+        reads_strong = any(mentions(r, lambda e: counter_read(e) is not None and counter_read(e)[2] == "strong") for r in cl["returns"])
+        if not reads_strong:
+            return None
+        self.verdict_sites.add(b)
+        eng.obl("GATE-6", "verdict", b)
+        good = False
+        if len(cl["returns"]) == 1 and not cl["effects"] and is_const(x[3][1], 0):
+            r = cl["returns"][0]
+            if r[0] == "field" and r[1][0] == "bin" and r[2] in ("0", 0):
+                r = r[1]
+            if r[0] == "bin" and r[1] in ("Add", "AddUnchecked", "AddWithOverflow") and acc in (r[2], r[3]):
+                term = r[3] if r[2] == acc else r[2]
+                if term[0] == "call" and term[2].startswith("core::num::") and term[2].endswith("::saturating_sub") and len(term[3]) == 2:
+                    g = counter_read(term[3][0])
+                    kb = mk_field(mk_deref(mk_field(elem, "0", "")), "ptr", LINK)
+                    val = mk_field(elem, "1", "")
+                    good = g is not None and g[2] == "strong" and g[1] == kb and term[3][1] in (val, mk_deref(val))
+        if not good:
+            eng.violate("GATE-6", "verdict-predicate-shape", "the orphan test (%s) folds the members' counts into one number, but not as the sum of `strong.saturating_sub(traced count)` from 0: which groups it judges orphaned differs from `no member has strong > its traced count`" % cl["where"], b, st)
+            return add(st, ("verdict_checked", M))
+        if op in ("Gt", "Ne"):
+            orphaned = not truth
+        elif op in ("Eq", "Le"):
+            orphaned = truth
+        else:
+            eng.violate("GATE-6", "verdict-predicate", "the orphan test compares the number of outside references with 0 using `%s`" % op, b, st)
+            return add(st, ("verdict_checked", M))
+        self._per_key(eng, st, M, b)
+        if orphaned:
+            return add(st, ("verdict", M), ("anyres", M, True))
+        return add(st, ("verdict_checked", M), ("anyres", M, False))
+
     def on_assume_cmp(self, eng, st, op, x, y, truth, b):
         from interp import SWAP
+        fv = self._fold_verdict(eng, st, op, x, y, truth, b)
+        if fv is not None:
+            return fv
         g = counter_read(x)
         if g is None:
             g2 = counter_read(y)
